@@ -61,6 +61,9 @@ EXPRS = {
                                   G.P("kids.items.value")],
                                  ["child", "kids"]),
     "lazy.value": ("lazy.value", [G.P("lazy.value")], ["lazy"]),
+    # a constant default that is itself observable (fresh class, so that
+    # the constant is this execution's own)
+    "konst.value+fresh": ("konst.value", [G.P("konst.value")], ["konst"]),
     "+tag": ("+tag", [G.P("+tag")], ["extra", "child"]),
     "child.+tag": ("child.+tag", [G.P("child.+tag")], ["extra", "child"]),
     "+link.value": ("+link.value", [G.P("+link.value")], ["child", "xlink"]),
